@@ -38,4 +38,26 @@ def reviewed : List (String × String × Verdict) := [
   ("untypedBoolTypeInfo", "*compiler.typeInfo", .sharedTypeInfo)
 ]
 
+/-- `<field> <function>`: every assignment to a field of a `typeInfo` (directly or through a
+`*typeInfo`) outside init functions — regenerated, pinned here. Read: `typeInfo.setValue` and
+`emitter.ti` write whatever type info a node of the tree maps to; for the identifiers `true` and
+`false` that is the *shared* one of the universe scope (finding `history-universe-bool`). Most of
+the others write a type info allocated a few lines before (`ti := &typeInfo{…}`); they have not
+been audited one by one — `checkCallExpression` (MethodType) and `checkFieldSelector` write the
+type info returned by a sub-expression check. The repeated-build oracle is what looks for more. -/
+def typeInfoWriters : List String := [
+  "Constant toTypeCheckerScope", "Constant typechecker.checkBuiltinCall",
+  "Constant typechecker.checkExplicitConversion", "Constant typechecker.obsoleteForRangeAssign",
+  "Constant typechecker.typeof", "MethodType typechecker.checkCallExpression",
+  "NativePackageName toTypeCheckerScope", "Properties checkPackage", "Properties toTypeCheckerScope",
+  "Properties typeInfo.setValue", "Properties typechecker.binaryOp",
+  "Properties typechecker.checkBuiltinCall", "Properties typechecker.checkConstantDeclaration",
+  "Properties typechecker.checkFieldSelector", "Properties typechecker.checkNodes",
+  "Properties typechecker.obsoleteForRangeAssign", "Properties typechecker.typeof",
+  "Type emitter.ti", "Type toTypeCheckerScope", "Type typechecker.binaryOp",
+  "Type typechecker.checkBuiltinCall", "Type typechecker.checkMethodExpression",
+  "Type typechecker.obsoleteForRangeAssign", "Type typechecker.typeof", "value toTypeCheckerScope",
+  "value typeInfo.setValue", "value typechecker.checkMethodExpression", "valueType typeInfo.setValue"
+]
+
 end ScriggoV.Spec.CompilerGlobalsReview
